@@ -447,8 +447,12 @@ func run() int {
 		}
 	}
 	var crossRes []sym.CrossResult
+	crossMs := 20000
+	if tier == "thorough" {
+		crossMs = 60000
+	}
 	if sym.XLogDir != "" {
-		crossRes = sym.CrossCheck(sym.XLogDir, []string{"z3", "cvc5"}, 60000, workers)
+		crossRes = sym.CrossCheck(sym.XLogDir, []string{"z3", "cvc5"}, crossMs, workers)
 		for _, cr := range crossRes {
 			fmt.Printf("CROSS-SOLVER %s: sessions=%d queries=%d agree=%d undecided=%d primary-unknown=%d disagreements=%d wall=%.1fs\n", cr.Solver, cr.Sessions, cr.Queries, cr.Agree, cr.Undecided, cr.Skipped, len(cr.Disagreements), cr.WallS)
 			for _, d := range cr.Disagreements {
